@@ -793,3 +793,19 @@ func lemmaActivationFollowsLastEpoch(b *baseEnabled, e1, e2 uint32, t1, t2 uint6
 //@ guarded esdtNFTAddUri .gasConfig by .mutExecution
 //@ guarded esdtNFTupdate .funcGasCost by .mutExecution
 //@ guarded esdtNFTupdate .gasConfig by .mutExecution
+
+// ---- gas schedule changes (C16): an incomplete or zero schedule is rejected as a whole --------------------
+
+//@ func createGasConfig
+//@   results r, err
+//@   view mb = gasMap["BaseOperationCost"]
+//@   view mi = gasMap["BuiltInCost"]
+//@   ensures[C16] err == nil ==> r != nil && fresh(r)
+//@   ensures[C16] err == nil ==> completeBase(mb) && completeBuiltIn(mi)
+//@   ensures[C16] err == nil ==> r.BuiltInCost.ESDTTransfer == mi["ESDTTransfer"] && r.BuiltInCost.SaveKeyValue == mi["SaveKeyValue"] && r.BuiltInCost.ESDTNFTMultiTransfer == mi["ESDTNFTMultiTransfer"] && r.BaseOperationCost.StorePerByte == mb["StorePerByte"] && r.BaseOperationCost.DataCopyPerByte == mb["DataCopyPerByte"] && r.BaseOperationCost.PersistPerByte == mb["PersistPerByte"]
+//@   ensures[C16] unchangedAll()
+
+//@ func (b *builtInFuncFactory) GasScheduleChange
+//@   requires b != nil && !isNil(b.builtInFunctions)
+//@   ensures[C16] !(completeBase(gasSchedule["BaseOperationCost"]) && completeBuiltIn(gasSchedule["BuiltInCost"])) ==> unchangedAll()
+//@   modifies b.gasConfig, heap(H|builtInFunctions.changeOwnerAddress|.gasCost), heap(H|builtInFunctions.claimDeveloperRewards|.gasCost), heap(H|builtInFunctions.saveUserName|.gasCost), heap(H|builtInFunctions.saveKeyValueStorage|.funcGasCost), heap(H|builtInFunctions.saveKeyValueStorage|.gasConfig.StorePerByte), heap(H|builtInFunctions.saveKeyValueStorage|.gasConfig.ReleasePerByte), heap(H|builtInFunctions.saveKeyValueStorage|.gasConfig.DataCopyPerByte), heap(H|builtInFunctions.saveKeyValueStorage|.gasConfig.PersistPerByte), heap(H|builtInFunctions.saveKeyValueStorage|.gasConfig.CompilePerByte), heap(H|builtInFunctions.saveKeyValueStorage|.gasConfig.AoTPreparePerByte), heap(H|builtInFunctions.esdtTransfer|.funcGasCost), heap(H|builtInFunctions.esdtBurn|.funcGasCost), heap(H|builtInFunctions.esdtLocalMint|.funcGasCost), heap(H|builtInFunctions.esdtLocalBurn|.funcGasCost), heap(H|builtInFunctions.esdtNFTCreate|.funcGasCost), heap(H|builtInFunctions.esdtNFTCreate|.gasConfig.StorePerByte), heap(H|builtInFunctions.esdtNFTCreate|.gasConfig.ReleasePerByte), heap(H|builtInFunctions.esdtNFTCreate|.gasConfig.DataCopyPerByte), heap(H|builtInFunctions.esdtNFTCreate|.gasConfig.PersistPerByte), heap(H|builtInFunctions.esdtNFTCreate|.gasConfig.CompilePerByte), heap(H|builtInFunctions.esdtNFTCreate|.gasConfig.AoTPreparePerByte), heap(H|builtInFunctions.esdtNFTAddQuantity|.funcGasCost), heap(H|builtInFunctions.esdtNFTBurn|.funcGasCost), heap(H|builtInFunctions.esdtNFTTransfer|.funcGasCost), heap(H|builtInFunctions.esdtNFTTransfer|.gasConfig.StorePerByte), heap(H|builtInFunctions.esdtNFTTransfer|.gasConfig.ReleasePerByte), heap(H|builtInFunctions.esdtNFTTransfer|.gasConfig.DataCopyPerByte), heap(H|builtInFunctions.esdtNFTTransfer|.gasConfig.PersistPerByte), heap(H|builtInFunctions.esdtNFTTransfer|.gasConfig.CompilePerByte), heap(H|builtInFunctions.esdtNFTTransfer|.gasConfig.AoTPreparePerByte), heap(H|builtInFunctions.esdtNFTMultiTransfer|.funcGasCost), heap(H|builtInFunctions.esdtNFTMultiTransfer|.gasConfig.StorePerByte), heap(H|builtInFunctions.esdtNFTMultiTransfer|.gasConfig.ReleasePerByte), heap(H|builtInFunctions.esdtNFTMultiTransfer|.gasConfig.DataCopyPerByte), heap(H|builtInFunctions.esdtNFTMultiTransfer|.gasConfig.PersistPerByte), heap(H|builtInFunctions.esdtNFTMultiTransfer|.gasConfig.CompilePerByte), heap(H|builtInFunctions.esdtNFTMultiTransfer|.gasConfig.AoTPreparePerByte), heap(H|builtInFunctions.esdtNFTAddUri|.funcGasCost), heap(H|builtInFunctions.esdtNFTAddUri|.gasConfig.StorePerByte), heap(H|builtInFunctions.esdtNFTAddUri|.gasConfig.ReleasePerByte), heap(H|builtInFunctions.esdtNFTAddUri|.gasConfig.DataCopyPerByte), heap(H|builtInFunctions.esdtNFTAddUri|.gasConfig.PersistPerByte), heap(H|builtInFunctions.esdtNFTAddUri|.gasConfig.CompilePerByte), heap(H|builtInFunctions.esdtNFTAddUri|.gasConfig.AoTPreparePerByte), heap(H|builtInFunctions.esdtNFTupdate|.funcGasCost), heap(H|builtInFunctions.esdtNFTupdate|.gasConfig.StorePerByte), heap(H|builtInFunctions.esdtNFTupdate|.gasConfig.ReleasePerByte), heap(H|builtInFunctions.esdtNFTupdate|.gasConfig.DataCopyPerByte), heap(H|builtInFunctions.esdtNFTupdate|.gasConfig.PersistPerByte), heap(H|builtInFunctions.esdtNFTupdate|.gasConfig.CompilePerByte), heap(H|builtInFunctions.esdtNFTupdate|.gasConfig.AoTPreparePerByte)
